@@ -7,7 +7,6 @@ import (
 	"fmt"
 	"net/http"
 	"net/http/httptest"
-	"reflect"
 	"sort"
 	"strings"
 	"sync"
@@ -16,6 +15,7 @@ import (
 
 	"github.com/atlassian/escalator/pkg/controller"
 	v1 "k8s.io/api/core/v1"
+	"k8s.io/apimachinery/pkg/api/equality"
 	metav1 "k8s.io/apimachinery/pkg/apis/meta/v1"
 	"k8s.io/apimachinery/pkg/labels"
 	"k8s.io/apimachinery/pkg/types"
@@ -84,35 +84,45 @@ func (m *miniAPI) ServeHTTP(w http.ResponseWriter, r *http.Request) {
 	_ = json.NewEncoder(w).Encode(out)
 }
 
-// fieldProps: which properties read which part of the objects.
-var nodeFieldProps = map[string][]string{
-	"metadata.creationTimestamp": {"C07", "C08"}, "spec.unschedulable": {"C09"}, "metadata.annotations": {"C10"},
-	"spec.taints": {"C01", "C15"}, "metadata.labels": {"C12", "C14"}, "status.allocatable": {"C05", "C13"},
-	"spec.providerID": {"C19"}, "metadata.name": {"C01", "C19"},
-}
-var podFieldProps = map[string][]string{
-	"metadata.annotations": {"C14"}, "metadata.ownerReferences": {"C14"}, "spec.nodeSelector": {"C14"}, "spec.affinity": {"C14"},
-	"spec.nodeName": {"C01"}, "spec.containers": {"C13", "C05"}, "spec.initContainers": {"C13"}, "spec.overhead": {"C13"},
-	"status": {"C06"}, "metadata.name": {"C13", "C14"}, "metadata.uid": {"C13"}, "metadata.creationTimestamp": {"C01"},
+// which properties read which part of the objects, and how to get at that part (compared with
+// apimachinery's semantic equality: quantities by value, times by instant, nil == empty)
+type nodeField struct {
+	path  string
+	props []string
+	get   func(*v1.Node) any
 }
 
-func jsonTree(v any) map[string]any {
-	b, _ := json.Marshal(v)
-	var m map[string]any
-	_ = json.Unmarshal(b, &m)
-	return m
+type podField struct {
+	path  string
+	props []string
+	get   func(*v1.Pod) any
 }
 
-func lookup(m map[string]any, path string) any {
-	var cur any = m
-	for _, p := range strings.Split(path, ".") {
-		mm, ok := cur.(map[string]any)
-		if !ok {
-			return nil
-		}
-		cur = mm[p]
-	}
-	return cur
+var nodeFields = []nodeField{
+	{"metadata.creationTimestamp", []string{"C07", "C08"}, func(n *v1.Node) any { return n.CreationTimestamp }},
+	{"spec.unschedulable", []string{"C09"}, func(n *v1.Node) any { return n.Spec.Unschedulable }},
+	{"metadata.annotations", []string{"C10"}, func(n *v1.Node) any { return n.Annotations }},
+	{"spec.taints", []string{"C01", "C15"}, func(n *v1.Node) any { return n.Spec.Taints }},
+	{"metadata.labels", []string{"C12", "C14"}, func(n *v1.Node) any { return n.Labels }},
+	{"status.allocatable", []string{"C05", "C13"}, func(n *v1.Node) any { return n.Status.Allocatable }},
+	{"spec.providerID", []string{"C19"}, func(n *v1.Node) any { return n.Spec.ProviderID }},
+	{"metadata.deletionTimestamp", []string{"C01"}, func(n *v1.Node) any { return n.DeletionTimestamp }},
+}
+
+var podFields = []podField{
+	{"metadata.annotations", []string{"C14"}, func(p *v1.Pod) any { return p.Annotations }},
+	{"metadata.ownerReferences", []string{"C14"}, func(p *v1.Pod) any { return p.OwnerReferences }},
+	{"spec.nodeSelector", []string{"C14"}, func(p *v1.Pod) any { return p.Spec.NodeSelector }},
+	{"spec.affinity", []string{"C14"}, func(p *v1.Pod) any { return p.Spec.Affinity }},
+	{"spec.nodeName", []string{"C01"}, func(p *v1.Pod) any { return p.Spec.NodeName }},
+	{"spec.containers", []string{"C05", "C13"}, func(p *v1.Pod) any { return p.Spec.Containers }},
+	{"spec.initContainers", []string{"C13"}, func(p *v1.Pod) any { return p.Spec.InitContainers }},
+	{"spec.overhead", []string{"C13"}, func(p *v1.Pod) any { return p.Spec.Overhead }},
+	{"status.phase", []string{"C01", "C13"}, func(p *v1.Pod) any { return p.Status.Phase }},
+	{"status.conditions", []string{"C05"}, func(p *v1.Pod) any { return p.Status.Conditions }},
+	{"metadata.uid", []string{"C13"}, func(p *v1.Pod) any { return p.UID }},
+	{"metadata.creationTimestamp", []string{"C01"}, func(p *v1.Pod) any { return p.CreationTimestamp }},
+	{"metadata.deletionTimestamp", []string{"C01", "C13", "C14"}, func(p *v1.Pod) any { return p.DeletionTimestamp }},
 }
 
 func wiringCheck(t *testing.T, prop string) {
@@ -223,10 +233,9 @@ func wiringCheck(t *testing.T, prop string) {
 					report([]string{"C12", "C14", "C09", "C08"}, "node-membership", "group %q: node %s served=%v listed=%v", gs.Opts.Name, name, wn != nil, gn != nil)
 					continue
 				}
-				wt, gt := jsonTree(wn), jsonTree(gn)
-				for path, props := range nodeFieldProps {
-					if !reflect.DeepEqual(lookup(wt, path), lookup(gt, path)) {
-						report(props, "node-field:"+path, "group %q node %s: %s served as %v, listed as %v", gs.Opts.Name, name, path, lookup(wt, path), lookup(gt, path))
+				for _, f := range nodeFields {
+					if !equality.Semantic.DeepEqual(f.get(wn), f.get(gn)) {
+						report(f.props, "node-field:"+f.path, "group %q node %s: %s served as %v, listed as %v", gs.Opts.Name, name, f.path, f.get(wn), f.get(gn))
 					}
 				}
 			}
@@ -255,10 +264,9 @@ func wiringCheck(t *testing.T, prop string) {
 					report([]string{"C14", "C13", "C01", "C05", "C06"}, "pod-missing", "group %q: pod %s is served and attributed to the group but not listed", gs.Opts.Name, name)
 					continue
 				}
-				wt, gt := jsonTree(wp), jsonTree(gp)
-				for path, props := range podFieldProps {
-					if !reflect.DeepEqual(lookup(wt, path), lookup(gt, path)) {
-						report(props, "pod-field:"+path, "group %q pod %s: %s served as %v, listed as %v", gs.Opts.Name, name, path, lookup(wt, path), lookup(gt, path))
+				for _, f := range podFields {
+					if !equality.Semantic.DeepEqual(f.get(wp), f.get(gp)) {
+						report(f.props, "pod-field:"+f.path, "group %q pod %s: %s served as %v, listed as %v", gs.Opts.Name, name, f.path, f.get(wp), f.get(gp))
 					}
 				}
 			}
